@@ -119,6 +119,7 @@ PROPS = Cls('RepositoryProps', {
     'chunker': CHUNKER, 'hasher': HASHER, 'cipher': Opt(CIPHER), 'userkey': Opt(BYTES),
     'authenticator': Opt(MACT), 'shared_kdf': Opt(KDFT), 'private': Opt(Ref(PRIVATE)),
 })
+PROPS.lenient = True        # attributes / class attributes without a model hold arbitrary state (e.g. a memo a change added)
 
 
 def _real_method(relpath, dotted):
